@@ -13,7 +13,7 @@ use serde_json::{json, Value};
 
 // the second name is the Cyrillic letter `х` (bytes D1 85): names are byte strings, and a byte such as
 // 0x85 inside a name must not be mistaken for a blank
-const TOKENS: [&[u8]; 8] = [b"<a>", b"<ab>", b"<\xD1\x85/>", b"</a>", b"</ab>", b"</a >", b"</\xD1\x85>", b"x"];
+const TOKENS: [&[u8]; 9] = [b"<a>", b"<ab>", b"<\xD1\x85/>", b"</a>", b"</ab>", b"</a >", b"</\xD1\x85>", b"x", b"</a\x0C>"];
 /// the four related switches, as bits of the cfg byte
 const SWITCHES: [u8; 4] = [CHECK_END_NAMES, ALLOW_UNMATCHED, EXPAND_EMPTY, TRIM_NAMES];
 
